@@ -22,15 +22,17 @@ func registerC01() {
 			"(header, file_id, the one-field definition, one matching data record; two more data patterns, all-0xFF and NUL-rich, if the definition was accepted) is decoded under " +
 			"a panic/hang guard; every rejected definition with a known base type is retried on a slot that already holds the same field definition for an unknown message; every 61st stream also goes through all six entry points with 1-byte and greedy chunkers. Family mutants: PRNG structured mutations (bit/byte flips, " +
 			"splices, truncation, extension, header edits, definition edits, record-header edits, size lies; CRC recomputed for half) of device files and model streams, each fed to the six " +
-			"entry points under three chunkers. Family multidefs: PRNG streams of 1-4 definitions with 1-8 ARBITRARY field definitions each (any field number, size, base byte; " +
+			"entry points under three chunkers. Family sizes: valid and mutated small files whose header data-size field is set to boundary values (0, 1, the true size +-k, 2^31-1, 2^31, 2^32-1, ...) with and without matching CRCs, through the six entry points. The mutants, multidefs and sizes families are run a second time in a GOARCH=386 binary (32-bit int) when the host can execute it. Family multidefs: PRNG streams of 1-4 definitions with 1-8 ARBITRARY field definitions each (any field number, size, base byte; " +
 			"developer-field lists; known and unknown messages; occasionally an illegal arch byte) followed by data records of exactly the defined sizes (some behind compressed headers), " +
 			"framed with correct CRCs, decoded with and without options (formatting logger, unknown lists) under two chunkers. A case is one stream; in family fielddefs each is distinct by construction and counted non-trivial because it reaches the definition validator; " +
 			"mutants are distinct by digest",
 		Assume:        []string{"a hang is decided logically (more than 10000 reads after the input ended) or by the doubly-confirmed wall-clock watchdog"},
 		MinNontrivial: 1000000,
+		Families386:   []string{"mutants", "multidefs", "sizes"},
 		Families: []lib.Family{
 			{Name: "fielddefs", N: func(t string) uint64 { return uint64(len(c01Pairs(t))) }, Run: c01FieldDefs},
 			{Name: "mutants", N: func(t string) uint64 { return tierN(t, 60000, 3000000) }, Run: c01Mutant},
+			{Name: "sizes", N: func(t string) uint64 { return tierN(t, 4000, 100000) }, Run: c01Sizes},
 			{Name: "multidefs", N: func(t string) uint64 { return tierN(t, 150000, 5000000) }, Run: c01MultiDefs},
 		},
 		Exhaustive: func(t string) bool { return true },
@@ -533,4 +535,51 @@ func c01MultiDefs(c *lib.Ctx, idx uint64) {
 		c.Count("multidef_streams_rejected", 1)
 	}
 	c.Nontrivial(b)
+}
+
+// c01Sizes: the 32-bit data-size field of the header at its boundaries.
+func c01Sizes(c *lib.Ctx, idx uint64) {
+	rng := lib.NewRand("C01.sizes", idx)
+	b := c07Plan(rng, idx).Bytes()
+	if len(b) > 4000 {
+		b = b[:4000]
+	}
+	hs := int(b[0])
+	trueSize := uint32(len(b) - hs - 2)
+	sizes := []uint32{0, 1, 2, trueSize - 1, trueSize + 1, trueSize + 2, trueSize + 4096, 4095, 4096, 4097, 65535, 65536, 1<<31 - 1, 1 << 31, 1<<31 + 1, 1<<32 - 1, 1<<32 - 2, 1<<32 - 14, 1<<32 - 16, uint32(rng.U64())}
+	ds := sizes[idx%uint64(len(sizes))]
+	b[4], b[5], b[6], b[7] = byte(ds), byte(ds>>8), byte(ds>>16), byte(ds>>24)
+	if hs == 14 {
+		hc := fastCRC(0, b[:12])
+		b[12], b[13] = byte(hc), byte(hc>>8)
+		if rng.Chance(1, 4) {
+			b[12], b[13] = 0, 0
+		}
+	}
+	c.SetInflight(b)
+	for _, ep := range lib.EntryPoints {
+		for _, ch := range []lib.Chunker{{Kind: "whole"}, {Kind: "fixed", Size: 5}} {
+			o := lib.Guard(func() { lib.Call(ep, lib.NewReader(b, ch)) })
+			c.Eval()
+			if o.Panicked || o.Hang {
+				c.Violation(b, "%s (%s reads) panicked/hung (hang=%v) on a file whose header announces a data size of %d (%#x) bytes: %s\n%s", ep, ch, o.Hang, ds, ds, o.Panic, o.Stack)
+				return
+			}
+		}
+	}
+	c.Count(fmt.Sprintf("data_size_field_%s", sizeClass(ds, trueSize)), 1)
+	c.Nontrivial(b)
+}
+
+func sizeClass(ds, t uint32) string {
+	switch {
+	case ds == t:
+		return "true"
+	case ds >= 1<<31:
+		return "2^31_and_above"
+	case ds > t:
+		return "too_large"
+	default:
+		return "too_small"
+	}
 }
